@@ -153,7 +153,7 @@ def proof_part(pid: str, tier: str, plan: dict, out: dict) -> int:
                 status = "vacuous"
                 print(f"UNDECIDED property={pid} obligation={name}: precondition/cover is unsatisfiable (vacuous contract)")
                 code = max(code, 2)
-            elif sat and c is not None and c.float_mode == "real":
+            elif sat and all(r.relaxed for r in sat):
                 status = "undecided-relaxed-model"
                 print(f"UNDECIDED property={pid} obligation={name}: not provable in the relaxed float model (a model there is not a counterexample)")
                 code = max(code, 2)
